@@ -136,7 +136,7 @@ pub fn run(ctx: &Ctx) -> Outcome {
          fresh machine: every word of the OS image present and initialised, I/O page all initialised zeros; load: exactly the file's initialised words get value + full init mask, reserved words get an empty init mask, every other word (value and mask, read through the hook), all registers and the PC are unchanged (full 65536-word before/after diff); \
          non-trivial = file has a .blkw or >= 2 blocks; distinct by source",
     );
-    let cfg = TapeCfg::new(ctx, 300, 30_000, 2500);
+    let cfg = TapeCfg::new(ctx, 300, 10_000, 2500);
     out.shards = cfg.shards;
     out.absorb(tape_search(ctx, "main", &cfg, check, describe));
     out.essential = ["init:unseeded", "init:seeded", "init:known", "has-blkw", "block-at-x0000", "block-ends-at-xFE00", "reload-after-execution"].iter().map(|s| s.to_string()).collect();
